@@ -85,6 +85,11 @@ func prepStatements() []*prepStmt {
 			result: []prepCol{{"v", cqlspec.TVarchar}}},
 		{name: "S2", text: "INSERT INTO t (k, a, b) VALUES (?, ?, ?)", binds: []prepCol{{"k", cqlspec.TVarchar}, {"a", cqlspec.TInt}, {"b", cqlspec.TBigint}}, tokIdx: 0, pk: []uint16{0}},
 		{name: "S3", text: "UPDATE t SET a = ? WHERE k = ?", binds: []prepCol{{"a", cqlspec.TInt}, {"k", cqlspec.TVarchar}}, tokIdx: 1, pk: []uint16{1}},
+		// two different statements that differ only inside a string literal, and one that
+		// differs from S2 only in letter case of a quoted identifier
+		{name: "S4", text: "UPDATE t SET a = ? WHERE k = ? IF c = 'x  y'", binds: []prepCol{{"a", cqlspec.TInt}, {"k", cqlspec.TVarchar}}, tokIdx: 1, pk: []uint16{1}},
+		{name: "S5", text: "UPDATE t SET a = ? WHERE k = ? IF c = 'x y'", binds: []prepCol{{"a", cqlspec.TInt}, {"k", cqlspec.TVarchar}}, tokIdx: 1, pk: []uint16{1}},
+		{name: "S6", text: `INSERT INTO t (k, a, "B") VALUES (?, ?, ?)`, binds: []prepCol{{"k", cqlspec.TVarchar}, {"a", cqlspec.TInt}, {"B", cqlspec.TBigint}}, tokIdx: 0, pk: []uint16{0}},
 	}
 }
 
@@ -388,7 +393,7 @@ func runPrep(e *Env) {
 	maxPrepared := []int{1000, 1, 2, 3}[tp.Next(4)]
 	timeout := []time.Duration{300 * time.Millisecond, 100 * time.Millisecond, 700 * time.Millisecond}[tp.Next(3)]
 	nStmts := 1 + tp.Next(3)
-	stmtStart := tp.Next(3)
+	stmtStart := tp.Next(len(prepStatements()))
 	nTasks := 2 + tp.Next(5)
 	nOps := 2 + tp.Next(3)
 	if e.Tier == "thorough" {
@@ -433,7 +438,7 @@ func runPrep(e *Env) {
 	}
 	all := prepStatements()
 	for _, st := range all {
-		// the node knows all three statements; the run uses nStmts of them
+		// the node knows all statements; the run uses nStmts of them
 		w.byText[st.text] = st
 		w.byName[st.name] = st
 	}
